@@ -284,49 +284,49 @@ theorem cleared_qinv (q : Q) (par : Int) (L : List Lead) (hlen : L.length = q.nu
 theorem lead_length_of_rep {q : Q} {v : List Entry} (h : Rep q v) : q.lead.length = q.numLead := by
   rw [h.lead, h.numLead]; simp
 
-theorem wait_inv (nc : NC) (h : Inv nc) (num : Int) (ids : List Int) (st : Option (List Int))
-    (herr : (wait nc num ids st).err = NC_NOERR) : Inv (wait nc num ids st).nc := by
+theorem wait_inv (nc : NC) (h : Inv nc) (num : Int) (ids : List Int) (st : Option (List Int)) (V : Variant := {})
+    (herr : (wait nc num ids st V).err = NC_NOERR) : Inv (wait nc num ids st V).nc := by
   obtain ⟨vP, vG, hP, hG⟩ := h
   have hlP := lead_length_of_rep hP.rep
   have hlG := lead_length_of_rep hG.rep
   by_cases hc : num = NC_REQ_ALL ∨ num = NC_GET_REQ_ALL ∨ num = NC_PUT_REQ_ALL
   · rcases hc with hc | hc | hc
     · subst hc
-      have h1 : (wait nc NC_REQ_ALL ids st).nc.put = (nc.put.takeAll.cleanup nc.put.numLead).1 := by
+      have h1 : (wait nc NC_REQ_ALL ids st V).nc.put = (nc.put.takeAll.cleanup nc.put.numLead).1 := by
         simp [wait, extract, NC_PUT_REQ_ALL, NC_REQ_ALL, NC_GET_REQ_ALL, NC_NOERR]
-      have h2 : (wait nc NC_REQ_ALL ids st).nc.get = (nc.get.takeAll.cleanup nc.get.numLead).1 := by
+      have h2 : (wait nc NC_REQ_ALL ids st V).nc.get = (nc.get.takeAll.cleanup nc.get.numLead).1 := by
         simp [wait, extract, NC_PUT_REQ_ALL, NC_REQ_ALL, NC_GET_REQ_ALL, NC_NOERR]
       refine ⟨[], [], ?_, ?_⟩
       · rw [h1]; exact cleared_qinv nc.put 0 nc.put.lead hlP
       · rw [h2]; exact cleared_qinv nc.get 1 nc.get.lead hlG
     · subst hc
-      have h1 : (wait nc NC_GET_REQ_ALL ids st).nc.put = nc.put := by
+      have h1 : (wait nc NC_GET_REQ_ALL ids st V).nc.put = nc.put := by
         simp [wait, extract, NC_PUT_REQ_ALL, NC_REQ_ALL, NC_GET_REQ_ALL, NC_NOERR, cleanup_zero]
-      have h2 : (wait nc NC_GET_REQ_ALL ids st).nc.get = (nc.get.takeAll.cleanup nc.get.numLead).1 := by
+      have h2 : (wait nc NC_GET_REQ_ALL ids st V).nc.get = (nc.get.takeAll.cleanup nc.get.numLead).1 := by
         simp [wait, extract, NC_PUT_REQ_ALL, NC_REQ_ALL, NC_GET_REQ_ALL, NC_NOERR]
       refine ⟨vP, [], ?_, ?_⟩
       · rw [h1]; exact hP
       · rw [h2]; exact cleared_qinv nc.get 1 nc.get.lead hlG
     · subst hc
-      have h1 : (wait nc NC_PUT_REQ_ALL ids st).nc.put = (nc.put.takeAll.cleanup nc.put.numLead).1 := by
+      have h1 : (wait nc NC_PUT_REQ_ALL ids st V).nc.put = (nc.put.takeAll.cleanup nc.put.numLead).1 := by
         simp [wait, extract, NC_PUT_REQ_ALL, NC_REQ_ALL, NC_GET_REQ_ALL, NC_NOERR]
-      have h2 : (wait nc NC_PUT_REQ_ALL ids st).nc.get = nc.get := by
+      have h2 : (wait nc NC_PUT_REQ_ALL ids st V).nc.get = nc.get := by
         simp [wait, extract, NC_PUT_REQ_ALL, NC_REQ_ALL, NC_GET_REQ_ALL, NC_NOERR, cleanup_zero]
       refine ⟨[], vG, ?_, ?_⟩
       · rw [h1]; exact cleared_qinv nc.put 0 nc.put.lead hlP
       · rw [h2]; exact hG
-  · by_cases hs1 : nc.get.numReqs = 0 ∧ num = (nc.put.numLead : Int)
-    · have hext : extract nc num ids st =
+  · by_cases hs1 : sc1 V nc num ids
+    · have hext : extract nc num ids st V =
           { nc := { nc with put := { nc.put with lead := flagAll (if st.isSome then slotByPosition 0 nc.put.lead else nc.put.lead),
                                                  nonlead := [], numReqs := 0 } },
             ids := nullIds ids, st := st.map (zeroFirst nc.put.numLead),
             numWLead := nc.put.numLead, numW := nc.put.numReqs, putList := nc.put.nonlead } := by
         unfold extract; dsimp only; rw [if_neg hc, if_pos hs1]
-      have h1 : (wait nc num ids st).nc.put =
+      have h1 : (wait nc num ids st V).nc.put =
           (({ nc.put with lead := flagAll (if st.isSome then slotByPosition 0 nc.put.lead else nc.put.lead),
                           nonlead := [], numReqs := 0 } : Q).cleanup nc.put.numLead).1 := by
         unfold wait; rw [hext]; simp [NC_NOERR]
-      have h2 : (wait nc num ids st).nc.get = nc.get := by
+      have h2 : (wait nc num ids st V).nc.get = nc.get := by
         unfold wait; rw [hext]; simp [NC_NOERR, cleanup_zero]
       refine ⟨[], vG, ?_, ?_⟩
       · rw [h1]; apply cleared_qinv
@@ -334,18 +334,18 @@ theorem wait_inv (nc : NC) (h : Inv nc) (num : Int) (ids : List Int) (st : Optio
         · rw [slotByPosition_length]; exact hlP
         · exact hlP
       · rw [h2]; exact hG
-    · by_cases hs2 : nc.put.numReqs = 0 ∧ num = (nc.get.numLead : Int)
-      · have hext : extract nc num ids st =
+    · by_cases hs2 : sc2 V nc num ids
+      · have hext : extract nc num ids st V =
             { nc := { nc with get := { nc.get with lead := flagAll (if st.isSome then slotByPosition 0 nc.get.lead else nc.get.lead),
                                                    nonlead := [], numReqs := 0 } },
               ids := nullIds ids, st := st.map (zeroFirst nc.get.numLead),
               numRLead := nc.get.numLead, numR := nc.get.numReqs, getList := nc.get.nonlead } := by
           unfold extract; dsimp only; rw [if_neg hc, if_neg hs1, if_pos hs2]
-        have h1 : (wait nc num ids st).nc.get =
+        have h1 : (wait nc num ids st V).nc.get =
             (({ nc.get with lead := flagAll (if st.isSome then slotByPosition 0 nc.get.lead else nc.get.lead),
                             nonlead := [], numReqs := 0 } : Q).cleanup nc.get.numLead).1 := by
           unfold wait; rw [hext]; simp [NC_NOERR]
-        have h2 : (wait nc num ids st).nc.put = nc.put := by
+        have h2 : (wait nc num ids st V).nc.put = nc.put := by
           unfold wait; rw [hext]; simp [NC_NOERR, cleanup_zero]
         refine ⟨vP, [], ?_, ?_⟩
         · rw [h2]; exact hP
@@ -353,25 +353,25 @@ theorem wait_inv (nc : NC) (h : Inv nc) (num : Int) (ids : List Int) (st : Optio
           split
           · rw [slotByPosition_length]; exact hlG
           · exact hlG
-      · by_cases hs3 : num = ((nc.put.numLead + nc.get.numLead : Nat) : Int) ∧ st.isNone
-        · have hext : extract nc num ids st =
+      · by_cases hs3 : sc3 V nc num ids st
+        · have hext : extract nc num ids st V =
               { nc := { nc with put := nc.put.takeAll, get := nc.get.takeAll },
                 ids := nullIds ids, st := st,
                 numWLead := nc.put.numLead, numW := nc.put.numReqs, putList := nc.put.nonlead,
                 numRLead := nc.get.numLead, numR := nc.get.numReqs, getList := nc.get.nonlead } := by
             unfold extract; dsimp only; rw [if_neg hc, if_neg hs1, if_neg hs2, if_pos hs3]
-          have h1 : (wait nc num ids st).nc.put = (nc.put.takeAll.cleanup nc.put.numLead).1 := by
+          have h1 : (wait nc num ids st V).nc.put = (nc.put.takeAll.cleanup nc.put.numLead).1 := by
             unfold wait; rw [hext]; simp [NC_NOERR]
-          have h2 : (wait nc num ids st).nc.get = (nc.get.takeAll.cleanup nc.get.numLead).1 := by
+          have h2 : (wait nc num ids st V).nc.get = (nc.get.takeAll.cleanup nc.get.numLead).1 := by
             unfold wait; rw [hext]; simp [NC_NOERR]
           refine ⟨[], [], ?_, ?_⟩
           · rw [h1]; exact cleared_qinv nc.put 0 nc.put.lead hlP
           · rw [h2]; exact cleared_qinv nc.get 1 nc.get.lead hlG
-        · have hsub : SubsetPath nc num st := ⟨hc, hs1, hs2, hs3⟩
+        · have hsub : SubsetPath nc num ids st V := ⟨hc, hs1, hs2, hs3⟩
           have hw := wait_subset nc vP vG hP.rep hG.rep hP.clean hG.clean hP.distinct hG.distinct hP.noEmpty hG.noEmpty
             (fun e he => ⟨(hP.ids e he).1, hP.ne_null e he⟩)
             (fun e he => ⟨by have := (hG.ids e he).1; omega, hG.ne_null e he⟩)
-            num ids st hsub herr
+            num ids st V hsub herr
           exact ⟨_, _, hP.of_sublist List.filter_sublist hw.1 hw.2.2.2.2.2.2.1,
                  hG.of_sublist List.filter_sublist hw.2.1 hw.2.2.2.2.2.2.2⟩
 
@@ -430,10 +430,6 @@ theorem cancelView_filter (ids : List Int) : ∀ (vP vG : List Entry),
           simp [hne]
 
 /-! ### numrecs -/
-
-/-- the record count the blocking calls would leave: the maximum over the completed puts -/
-def maxRecOf (numrecs : Int) (done : List Lead) : Int :=
-  done.foldl (fun acc l => if acc < l.c.maxRec then l.c.maxRec else acc) numrecs
 
 theorem newNumrecs_allflagged (L : List Lead) (h : ∀ l ∈ L, l.c.toFree = true) :
     ∀ (a : Int), 0 ≤ a →
